@@ -86,6 +86,16 @@ def shard_country(arg):
         t = g.iban(cc, rng, v)
         if t not in bases:
             bases.append(t)
+    from .c02 import solve_for_digits
+    light = set()                              # bases that only get the check-digit sweep (their aliases are what matters)
+    for target in ("02", "97", "98"):          # bases whose congruent aliases 99 / 00 / 01 exist
+        b = solve_for_digits(cc, g.bban(cc, rng), g.classes(cc), target, rng)
+        if b:
+            t = g.iban_of(cc, b)
+            if t not in bases:
+                bases.append(t)
+                light.add(t)
+                rec.classes["base-alias-adjacent"] += 1
     t = g.self_similar_iban(cc, rng)       # the BBAN repeats the IBAN's own first four characters
     if t:
         bases.append(t)
@@ -96,7 +106,7 @@ def shard_country(arg):
         rec.case("valid", base, base if bi == 0 else None)
         # (b) complete single-replacement neighbourhood over the alphabet
         n = 0
-        for i, ch, t in gens.single_replacements(base, alphabet):
+        for i, ch, t in (gens.single_replacements(base, alphabet) if base not in light else ()):
             want = check_text(rec, t, f"replace:{zone(i)}", full=(n % 16 == 0))
             n += 1
             rec.evals += 1
@@ -107,10 +117,19 @@ def shard_country(arg):
                 rec.classes["replace-nonascii"] += 1
             else:
                 rec.classes["replace-ascii"] += 1
+        if bi < 2:
+            # insertion neighbourhood: every alphabet character inserted at the start, after the country code, after the check
+            # digits, in the middle and at the end (whitespace insertions are accepted, everything else rejected)
+            for i, ch, t in gens.single_insertions(base, alphabet):
+                want = check_text(rec, t, f"insert:{zone(i)}", full=False)
+                rec.evals += 1
+                rec.nt.add(hash(t))
+                rec.classes["insert-accepted" if want else "insert-rejected"] += 1
+            rec.exhaustive.append("every alphabet character inserted at 5 positions, first two bases per country")
         if bi == 0:
             rec.sample("replace-nonascii", base[:7] + "\u0663" + base[8:])
         # (c) every length 0..40; deletion / duplication / swap at every position
-        for kind, t in gens.length_variants(base, filler=base[-1], upto=40):
+        for kind, t in (gens.length_variants(base, filler=base[-1], upto=40) if base not in light else ()):
             check_text(rec, t, f"length:{kind}", full=False)
             rec.case("length-" + kind, t)
         for pad in ("0", "A", " "):
@@ -121,7 +140,7 @@ def shard_country(arg):
         # (d) all 100 check-digit pairs
         for d in range(100):
             t = base[:2] + f"{d:02d}" + base[4:]
-            check_text(rec, t, "pair", full=False)
+            check_text(rec, t, "pair", full=(d in (0, 1, 99) or (d - int(base[2:4])) % 97 == 0))
             rec.case("pair", t)
         rec.exhaustive.append("single replacement of every position by every alphabet character, per base")
         rec.exhaustive.append("all 100 check-digit pairs per base")
@@ -273,7 +292,7 @@ def run(ctx):
     if not ctx.quick:
         from ..engines import fuzz
         fuzz.run_campaign(ctx.rec, "iban-c01", 120000, ctx.seed, ctx.prop)   # secondary engine: coverage-guided, oracle inside
-    ctx.require_classes("ws-extreme-valid", "ws-extreme-invalid", "token-prefix", "token-suffix", "token-infix",
+    ctx.require_classes("insert-accepted", "insert-rejected", "ws-extreme-valid", "ws-extreme-invalid", "token-prefix", "token-suffix", "token-infix",
                         "argform-userstr", "argform-own-object",
                         "valid", "replace-nonascii", "replace-ascii", "replace-accepted", "pair", "length-trunc",
                         "length-extend", "prefix-accepted", "prefix-rejected", "hyp-near", "hyp-text")
